@@ -1,7 +1,9 @@
 // C04 tier 1: PS5 job graph under the deterministic scheduler, one instantiation per parameter set.
 #pragma once
 #include "C04_common.hpp"
+#ifndef C04_REAL_THREADS
 #include "../engine/sched/vsched.hpp"
+#endif
 
 #include <tlx/sort/strings/parallel_sample_sort.hpp>
 #include <tlx/sort/strings_parallel.hpp>
@@ -38,12 +40,14 @@ typedef void (*RunFn)(pbt::Source& src, Input& in, bool with_lcp, unsigned hw);
 
 template <class P>
 void run_params(pbt::Source& src, Input& in, bool with_lcp, unsigned hw) {
-    vsched::Thread::hw() = hw;
+    tlx::std::thread::hw() = hw;
     tlx::std::minstd_rand::forced_seed() = 1 + (unsigned)src.range(0, 250);
+#ifndef C04_REAL_THREADS
     vsched::Options opt;
     opt.max_steps = 400000;
     opt.livelock_rounds = 0; // PS5 polls has_idle() between thread-local work: not a spin loop
     vsched::Run run(src, opt);
+#endif
     size_t n = in.ptrs.size();
     typedef UCharStringSet SS;
     SS ss(in.ptrs.data(), in.ptrs.data() + n);
